@@ -82,7 +82,7 @@ def gen_contention(r) -> Dict[str, Any]:
             inv.append(acts)
         scripts["bar:" + p] = inv
     return {"pairs": pairs, "bars": bars, "setup": setup, "scripts": scripts, "suspend": False, "lend": False,
-            "nsig": 0, "liq": ["25", "0"], "scarce": False, "variant": "contention"}
+            "nsig": 0, "liq": ["25", "0"], "scarce": False, "variant": "contention", "shared_lists": r.random() < 0.5}
 
 
 def gen(r) -> Dict[str, Any]:
@@ -145,13 +145,28 @@ def gen(r) -> Dict[str, Any]:
     for k in range(nsig):
         scripts[f"signal:{k}"] = [actions("signal") for _ in range(20)]
     return {"pairs": pairs, "bars": bars, "setup": setup, "scripts": scripts, "suspend": suspend, "lend": lend,
-            "nsig": nsig, "liq": None, "scarce": r.random() < 0.5, "variant": "mixed"}
+            "nsig": nsig, "liq": None, "scarce": r.random() < 0.5, "variant": "mixed", "shared_lists": r.random() < 0.5}
+
+
+def build_bar_lists(sc: Dict[str, Any]) -> Dict[str, list]:
+    """The bar events of every pair as plain lists, built once per strategy: a sweep over max_concurrent / repeated
+    runs typically hands the *same* lists to every new event source."""
+    from basana.core import bar
+    from basana.core.pair import Pair
+    out = {}
+    for p, rows in sc["bars"].items():
+        b, q = p.split("/")
+        pair = Pair(b, q)
+        out[p] = [bar.BarEvent(T(day), bar.Bar(T(day - 1), pair, D(o), D(h), D(low), D(c), D(v)))
+                  for (day, o, h, low, c, v) in rows]
+    return out
 
 
 class OneRun:
-    def __init__(self, sc: Dict[str, Any], max_concurrent: int):
+    def __init__(self, sc: Dict[str, Any], max_concurrent: int, shared_lists: Optional[Dict[str, list]] = None):
         self.sc = sc
         self.mc = max_concurrent
+        self.shared_lists = shared_lists
         self.orders: List[Dict[str, Any]] = []      # creation order
         self.by_id: Dict[str, Dict[str, Any]] = {}
         self.look_ahead: List[str] = []
@@ -277,9 +292,12 @@ class OneRun:
         for step in sc["setup"]:
             if step[0] == "src":
                 p = step[1]
-                src = event.FifoQueueEventSource()
-                for (day, o, h, low, c, v) in sc["bars"][p]:
-                    src.push(bar.BarEvent(T(day), bar.Bar(T(day - 1), pairs[p], D(o), D(h), D(low), D(c), D(v))))
+                if self.shared_lists is not None:
+                    src = event.FifoQueueEventSource(events=self.shared_lists[p])
+                else:
+                    src = event.FifoQueueEventSource()
+                    for (day, o, h, low, c, v) in sc["bars"][p]:
+                        src.push(bar.BarEvent(T(day), bar.Bar(T(day - 1), pairs[p], D(o), D(h), D(low), D(c), D(v))))
                 e.add_bar_source(src)
             elif step[0] == "sub":
                 e.subscribe_to_bar_events(pairs[step[1]], mk("bar:" + step[1], step[1]))
@@ -330,9 +348,10 @@ def evaluate(sc: Dict[str, Any], res: ShardResult, key: str) -> Dict[str, str]:
     total_fills = 0
     cross = 0
     saw_look_ahead = False
+    shared = build_bar_lists(sc) if sc.get("shared_lists") else None
     for mc in POOLS:
         for rep in range(2):
-            r = OneRun(sc, mc).run()
+            r = OneRun(sc, mc, shared).run()
             res.count("backtests")
             if r.outcome != "ok":
                 res.violate(Violation("C03", "backtest_failed", f"max_concurrent={mc}: {r.outcome}", scenario=sc))
